@@ -317,7 +317,12 @@ def gen_method(rng, D, name, max_lts=4):
         for s in range(n):
             if l != s and rng.random() < 0.13:
                 both_impl = l < k_impl and s < k_impl
-                if rng.random() < 0.6 and (both_impl or (l >= k_impl)):
+                # a bound between two lifetimes of the impl may also be written on the method (`fn f(..) where 'b: 'a`), whether or
+                # not the method declares lifetimes of its own
+                on_method = both_impl and rng.random() < 0.3
+                if on_method:
+                    places["meth_where"].append((l, [s]))
+                elif rng.random() < 0.6 and (both_impl or (l >= k_impl)):
                     places["impl_param" if both_impl else "meth_param"].setdefault(l, []).append(s)
                 else:
                     places["impl_where" if both_impl else "meth_where"].append((l, [s]))
@@ -384,6 +389,12 @@ def fixed_methods(D):
              ret=[("opaque", False, None, "H1", [0], False)], attr="constructor")
     flat_decl(m)
     out.append(m)
+    # a bound between the impl's lifetimes written only in the where clause of a method without generics of its own
+    m = dict(name="wh0", owner="H2", k_impl=2, n=2, wrap="plain", places={"impl_param": {}, "impl_where": [], "meth_param": {}, "meth_where": [(1, [0])]},
+             self=None, pnames=["p0", "p1"], params=[("opaque", False, 0, "Op", [], False), ("opaque", False, 1, "Op", [], False)],
+             ret=[("opaque", False, None, "H1", [0], False)])
+    flat_decl(m)
+    out.append(m)
     # elided return lifetimes (elision.rs): `&self` wins over another reference; the only reference among the parameters; the
     # lifetimes of a by-value `self` / of `Self` do not count; a hidden path lifetime (`&Op` from `x: H1`) counts as one position
     import random as _r
@@ -419,7 +430,7 @@ def fix_method(D, m):
             if not (lng < m["n"] and short < m["n"]):
                 continue                                      # needs a bound on an anonymous lifetime: stays rejected
             both_impl = lng < m["k_impl"] and short < m["k_impl"]
-            m["places"]["impl_where" if both_impl else "meth_where"].append((lng, [short]))
+            m["places"]["impl_where" if (both_impl and (lng + short) % 2 == 0) else "meth_where"].append((lng, [short]))
         flat_decl(m)
 
 
